@@ -4507,7 +4507,7 @@ class ResponseFuture(object):
             )
             return
 
-        if self._connection is not None:
+        if self._connection is not None and self._req_id is not None:
             try:
                 self._connection._requests.pop(self._req_id)
             # PYTHON-1044
@@ -4616,6 +4616,9 @@ class ResponseFuture(object):
             # TODO get connectTimeout from cluster settings
             connection, request_id = pool.borrow_connection(timeout=2.0)
             self._connection = connection
+            # _on_timeout() releases (self._connection, self._req_id): keep them a pair for retries
+            # on the same host and re-prepares too, not only for sends made by send_request()
+            self._req_id = request_id
             result_meta = self.prepared_statement.result_metadata if self.prepared_statement else []
 
             if cb is None:
@@ -4725,6 +4728,10 @@ class ResponseFuture(object):
     def _set_result(self, host, connection, pool, response):
         try:
             self.coordinator_host = host
+            if connection is self._connection:
+                # the request sent on this connection has been answered and its stream id may
+                # already belong to another request: a later timeout must not release it
+                self._req_id = None
             if pool:
                 pool.return_connection(connection)
 
@@ -4894,6 +4901,8 @@ class ResponseFuture(object):
         Handle the response to our attempt to prepare a statement.
         If it succeeded, run the original query again against the same host.
         """
+        if connection is self._connection:
+            self._req_id = None  # the PREPARE has been answered, see _set_result
         if pool:
             pool.return_connection(connection)
 
